@@ -93,6 +93,17 @@ def evalChan (ch : Nat) (c : ChanTruth) (f0 : Int) (strictFrame0 : Bool) : Optio
       match unsound with
       | some p => some s!"unsound ch{ch} epoch {k}: trigger at stream position {p} (frame {f0 + p}) satisfies no enabled criterion"
       | none =>
+      -- (a') a trigger that satisfies neither the edge nor the level criterion can only be an auto trigger,
+      -- and the auto criterion is: no trigger for the auto delay (or one record, if longer)
+      let adelay : Int := if ep.ts.autoDelay < ep.nsamp then ep.nsamp else ep.ts.autoDelay
+      let rec tooSoon : List Nat → Option (Nat × Nat)
+        | a :: b :: r =>
+          if !(edgeAt ep.ts c.signed c.g b || levelAt ep.ts c.signed c.g b) && (b : Int) - a < adelay then some (a, b)
+          else tooSoon (b :: r)
+        | _ => none
+      match (if ep.ts.auto then tooSoon mine else none) with
+      | some (a, b) => some s!"unsound-auto ch{ch} epoch {k}: trigger at stream position {b} (frame {f0 + b}) satisfies neither the edge nor the level criterion and comes only {b - a} samples after the trigger at {a} (auto delay {adelay})"
+      | none =>
       let positions := (List.range (e' - (ep.start - ep.back))).map (· + (ep.start - ep.back))
       -- (b) edge completeness
       let missE := positions.find? fun p => edgeAt ep.ts c.signed c.g p && eligible p && !(mine.contains p) && !covered p
